@@ -440,7 +440,20 @@ impl Gen<'_> {
         }
         self.emit("ecall".into());
         if let Some(n) = n {
-            if matches!(n, 5 | 9 | 41) && self.r.chance(1, 3) {
+            if matches!(n, 5 | 9 | 41) && self.r.chance(1, 8) {
+                // the value just returned is spilled, its register reused for the number of an
+                // exit service, and the spilled value decides which service is called next
+                let v = *self.r.pick(&[10i64, 93]);
+                self.emit(format!("addi {0}, {0}, -4", self.reg("sp")));
+                self.emit(format!("sw {}, 0({})", self.reg("a0"), self.reg("sp")));
+                self.emit(format!("li {}, {v}", self.reg("a0")));
+                if self.r.chance(2, 3) {
+                    self.emit("nop".into());
+                }
+                self.emit(format!("lw {}, 0({})", self.reg("a7"), self.reg("sp")));
+                self.emit(format!("addi {0}, {0}, 4", self.reg("sp")));
+                self.emit("ecall".into());
+            } else if matches!(n, 5 | 9 | 41) && self.r.chance(1, 3) {
                 // the value just returned decides which service is called next
                 if self.r.chance(1, 2) {
                     self.emit(format!("mv {}, {}", self.reg("a7"), self.reg("a0")));
